@@ -232,12 +232,13 @@ def r03_3(ctx) -> None:
     ctx.check(bool(dec) and bool(enc), "R03.3", sg, sg.node, "DER <-> raw", "the DER signature of the primitive is not converted with decode_dss_signature / encode_dss_signature", "decode on sign, encode on verify",
               construct="DER conversion")
     # verify: length = ceil(curve_key_size / 8), r = sig[:length], s = sig[length:]
-    length_defs = [d for d in eng.flow._defs(vf).get("length", []) if d[0] == "assign"]
     okv = False
-    for kind, dn, extra in length_defs:
-        if _ceil_div8(dn):
-            src = _resolve_local(eng, vf, dn)
-            if ".curve_key_size" in src:
+    sigp, keyp = vf.pos_params[2], vf.pos_params[3]
+    for s_ in enc:
+        if isinstance(s_.node, ast.Call) and len(s_.node.args) == 2:
+            ra, sa = resolve_all(eng, vf, s_.node.args[0]), resolve_all(eng, vf, s_.node.args[1])
+            W = f"({keyp}.curve_key_size + 7) // 8"
+            if ra == [f"decode_int({sigp}[:{W}])"] and sa == [f"decode_int({sigp}[{W}:])"]:
                 okv = True
     ctx.check(okv, "R03.3", vf, vf.node, f"{vf.short} :: half length", "verify does not derive the R / S length as ceil(curve_key_size / 8) (P-521: 66 octets)", "length = (key.curve_key_size + 7) // 8",
               construct="EC verify half length")
